@@ -128,6 +128,7 @@ fn programs() -> Vec<(Program, bool, bool)> {
     let mut p = mk("soft-deleted: delete(k);upsert(k,ttl);get_ref(k)", vec![put_ttl(1, 2, 5000)], vec![vec![del(1), ups_ttl(1, 9000), Op::Read { k: 1, variant: ReadVariant::GetRef }]], vec![]);
     p.tolerate_value_missing = true;
     v.push((p, false, false));
+    v.push((mk("delete(k)||{tick} sweeping another expired key", vec![put(1, 2), put_ttl(2, 3, 1000), adv(3000)], vec![vec![del(1)], vec![Op::Tick]], reput.clone()), true, true));
     v.push((mk("delete(k);await;total_weight", vec![put(1, 2), put(2, 3)], vec![vec![del(1), Op::Await { call: 0 }, Op::TotalWeight]], vec![]), true, false));
     v.push((mk("delete(k);await;total_weight /ttl", vec![put_ttl(1, 2, 5000), put(2, 3)], vec![vec![del(1), Op::Await { call: 0 }, Op::TotalWeight]], vec![]), true, false));
     v.push((mk("delete(k);await;put(k);get(k)||get(k)", vec![put(1, 2)], vec![vec![del(1), Op::Await { call: 0 }, put(1, 3), Op::Await { call: 2 }, get(1)], vec![get(1)]], vec![]), false, false));
